@@ -254,7 +254,15 @@ func (v *vc) onBalanceCall(fr *frame, st *state, name string, c *ssa.CallCommon)
 	}
 	v.trusted["lock balance: Lock/RLock are assumed not to be called by a goroutine that write-holds the mutex, Unlock/RUnlock only by one that holds it (anything else blocks or aborts in the Go runtime); callees are assumed balanced (each is checked by the same sweep)"] = true
 	st.ghost[g] = v.define("ghost "+g, "(Array Int Int)", sto(cur, key, next))
+	if strings.HasSuffix(name, "Unlock") {
+		// remember that this function has let go of the mutex once (checkLookedUpReceiver)
+		if rel, ok := st.ghost[relPrefix+g]; ok {
+			st.ghost[relPrefix+g] = v.define("ghost "+relPrefix+g, "(Array Int Int)", sto(rel, key, "1"))
+		}
+	}
 }
+
+const relPrefix = "rel_"
 
 func balGhostKeys(st *state) []string {
 	var ks []string
